@@ -436,7 +436,7 @@ impl Prop for C07 {
         16
     }
     fn cases(&self, t: Tier) -> usize {
-        t.pick(60_000, 3_000_000)
+        t.pick(300_000, 10_000_000)
     }
     fn rule(&self) -> String {
         "element-wise activations: enumeration of single-precision bit patterns through the public tensor API in blocks of 4096 alternating flat and 3-D (quick: arithmetic progression with prime stride 2039 and seed offset + 512 patterns around every exponent boundary and around 0, +-88.7, +-44, +-17, ...; thorough: all 2^32 patterns), 5 functions x forward/backward per pattern; every finite pattern is a distinct case, non-trivial unless x = +-0. Soft-max and single points: tape-decoded cases (length 1..64 flat or c x h x w, six input classes incl. +-3e38, all-equal, one dominant; shift tested with grid inputs and grid shifts so that x + c is exact). distinct_nontrivial counts only the tape-decoded cases; the enumeration count is reported separately.".into()
